@@ -11,9 +11,15 @@ META = {
             "interleavings of activator x condition-releaser x target-releaser: exactly one of them notifies the vertex, "
             "only after the condition is evaluated and (if it holds) the target is sealed; (2) the vertex countdown "
             "(GraphVertex::activate/ready, tests regenerated from vertex.cpp/.hpp) for any number of dependencies: invoke at "
-            "most once and only after every dependency notified; (3) an event-level engine model of a whole run for every "
+            "most once and only after every dependency notified; (2b) both composed for one vertex with n dependencies "
+            "(every schedule of the 2n+1 threads): invoked at most once, only when every dependency is resolved, exactly "
+            "once when all parties are through, and every step projects to a step of the abstract vertex the engine model "
+            "uses (refinement), whose invoke guard is proved equal to the engine model's; the closure counters fire "
+            "finish(0)/flush only under the engine model's guards; (3) an event-level engine model of a whole run for every "
             "acyclic graph, input, target set and schedule: values of ready data equal the sequential evaluation, only "
-            "needed vertices are activated, every data is sealed once, the closure counters finish the closure.  Tie: the "
+            "needed vertices are activated, every data is sealed once; with wait() every step decreases a measure, no "
+            "unflushed state is stuck and a flushed state is finished with no vertex running (termination without "
+            "fairness); reset gives the initial state.  Tie: the "
             "real anyflow classes (their .cpp compiled behind the atomic shim) run random DAGs from the same descriptor as "
             "the extracted model under a deterministic scheduler (inplace executor and a harness GraphExecutor whose queued "
             "tasks are picked by 1-3 worker threads, extra threads injecting data during activation, run/reset cycles); "
@@ -23,7 +29,9 @@ META = {
     "note": "Trusted: Coq kernel; translator; extraction (ExtrOcamlBasic) + OCaml explorer/driver; macro shim and dsched "
             "(sequentially consistent interleavings only; memory-order obligations checked on the regenerated site table); "
             "the event-level engine model is tied to the code by outcome equality, not by step-for-step trace replay "
-            "(the engine has no hook at flush_emits / dependency.ready).  Processor bodies are pure functions (Section "
+            "(the engine has no hook at flush_emits / dependency.ready); per vertex its invoke guard is machine-checked "
+            "against the composed atomic-level machines (c05_vx_*, c05_eng_guard_is_resolved, c05_clo_refines), the "
+            "composition over all vertices with the activation stacks is not.  Processor bodies are pure functions (Section "
             "variable in the theorems).  KNOWN FINDING run-races-external-release: if Graph::run() starts while another "
             "thread is still inside emit()/release() of an input (data sealed, successors not yet notified - cases with exec "
             "suffix 'x', directed case x.dir = seed 921473905, PCT, 3 workers, d0 injected after 7 yields, targets d8,d7), "
@@ -563,8 +571,9 @@ def main(argv):
     chk.cov["trusted_base"] = chk.cov.get("trusted_base", []) + [
         "translator/gen.py", "ExtrOcamlBasic extraction + ocaml/explore.ml + ocaml/af_driver.ml",
         "harness/shim (verif_atomic.h macro shim, dsched.cpp), harness GraphExecutor (task queue + worker threads)",
-        "refinement of the event-level engine model by the atomic-level dependency/vertex/closure machines: argued, "
-        "tied by outcome correspondence, not machine-checked",
+        "refinement of the event-level engine model by the atomic-level machines: machine-checked per vertex (invoke "
+        "guard, closure finish/flush guards); the whole-graph composition (activation stacks, EAct/EDepTrig/ERel) is "
+        "tied by outcome correspondence only",
         "modelled not verified: babylon::Any, Promise/Future used by ClosureContext (C08), absl::InlinedVector"]
     chk.assumptions = ["sequentially consistent interleavings at atomic-operation granularity (weak-memory effects are "
                        "covered only by the memory-order obligations on the regenerated site table)",
